@@ -22,6 +22,7 @@ import glob
 import io
 import json
 import os
+import re
 import struct
 import subprocess
 import sys
@@ -46,6 +47,11 @@ FILTERS = [
     'True',
     'False',
     '${%nonexistent} == 1',          # evaluates to a false value on every message
+    # verdicts that hinge on a metadata value that is itself false (0, False): it must reach the expression as it is
+    '${%is_compressed} == False',
+    '${%data_category} != 0',
+    '${%data_category} in (0, 5)',
+    '${%update_sequence_number} == 0 and ${%edition} >= 3',
 ]
 FILTERS_RAISING = ['1 // (${%edition} - 4) > 0']   # ZeroDivisionError on edition 4: not a library error
 
@@ -481,8 +487,32 @@ def filter_verdict(msg_bytes, expr, _cache={}):
         from pybufrkit.script import ScriptRunner
         with quiet():
             m = Decoder().process(msg_bytes, info_only=True)
-            _cache[key] = bool(ScriptRunner(expr, mode='eval').run(m))
+            by_script = bool(ScriptRunner(expr, mode='eval').run(m))
+        # the same verdict WITHOUT the script machinery: every ${%name} replaced by the value of the first parameter of
+        # that name in section order (None when there is none), then the plain Python expression
+        names = re.findall(r'\$\{%([A-Za-z_0-9]+)\}', expr)
+        env = {}
+        for nm in names:
+            val = None
+            for sec in m.sections:
+                hit = [p for p in sec if p.name == nm]
+                if hit:
+                    val = hit[0].value
+                    break
+            env['_md_' + nm] = val
+        plain = re.sub(r'\$\{%([A-Za-z_0-9]+)\}', lambda mo: '_md_' + mo.group(1), expr)
+        try:
+            direct = bool(eval(plain, {}, env))
+        except Exception:
+            direct = by_script          # an expression that raises: the scanner's exception classes are checked elsewhere
+        _cache[key] = direct
+        if direct != by_script:
+            FILTER_DISAGREEMENTS.append({'expr': expr, 'message': msg_bytes.hex()[:400], 'script': by_script, 'direct': direct,
+                                         'values': {k: repr(v) for k, v in env.items()}})
     return _cache[key]
+
+
+FILTER_DISAGREEMENTS = []
 
 
 def assemble(rng, msgs, trailing=True, lead=True):
